@@ -134,7 +134,7 @@ theorem W9.emitSrc (I : W9 ks E T w) (i : Nat) (n : Notif) (hni : ¬ i ∈ w.ter
         if i = j && w.srcSubscribed && w.srcAlive then
           match (generalizing := false) n with
           | .next _ => w1.push 0 [n]
-          | _ => if fin w.stages then w1 else { w1 with srcAlive := false }.push 0 [n]
+          | _ => { w1 with srcAlive := false }.push 0 [n]
         else w1
       | _ => w1) := by
   have hsrc0 := I.src
@@ -182,9 +182,7 @@ theorem W9.emitSrc (I : W9 ks E T w) (i : Nat) (n : Notif) (hni : ¬ i ∈ w.ter
     split
     · next j hsrc =>
       split
-      · split
-        · exact mark rfl
-        · exact markPush rfl rfl
+      · exact markPush rfl rfl
       · exact mark rfl
     · exact mark rfl
   | complete =>
@@ -192,9 +190,7 @@ theorem W9.emitSrc (I : W9 ks E T w) (i : Nat) (n : Notif) (hni : ¬ i ∈ w.ter
     split
     · next j hsrc =>
       split
-      · split
-        · exact mark rfl
-        · exact markPush rfl rfl
+      · exact markPush rfl rfl
       · exact mark rfl
     · exact mark rfl
 
